@@ -280,14 +280,15 @@ REGISTRY["C06"] = {
 }
 
 UF = ["lib/src/protocol/udp/flow.rs", "lib/src/protocol/udp/mod.rs"]
+UM = ["lib/src/protocol/udp/manager.rs", "lib/src/protocol/udp/mod.rs"]
 REGISTRY["C19"] = {
-    "technique": "bounded model checking (Kani/CBMC, SAT) of the per-flow UDP state machine (one step from an arbitrary flow state) and the affinity key",
+    "technique": "bounded model checking (Kani/CBMC, SAT) of the per-flow UDP state machine (one step from an arbitrary flow state) and the affinity key; symbolic execution of the MIR of the UdpManager entry points into SMT (z3 + cvc5) for the admission gate, cap updates and the count-then-teardown protocol",
     "level_text": "CBMC decides, from an arbitrary UdpFlow state (all counters, caps, generation, PPv2 flags symbolic), that one datagram/touch step changes exactly the right saturating counter, always changes the timer generation (so a stale expiry never matches, incl. u64 wrap), that teardown_reason is Some exactly when a non-zero cap is reached (responses first) and fires on exactly the cap-th datagram, that the PPv2 prefix policy is never/every/exactly-first, that phases only move forward; and that FlowKey::from_src identifies exactly the source ip (and port when configured) for all IPv4/IPv6 addresses. Single inductive steps, so they hold for histories of any length.",
-    "level_note": "Which backend got which datagram, cap enforcement on the number of live flows and exactly-once teardown live in UdpManager (HashMap<FlowKey,FlowId> + slab + VecDeque) and are outside CBMC's reach; the repository's seeded simulation remains the only coverage there.",
+    "level_note": "The manager's containers (HashMap<FlowKey,FlowId> + slab + VecDeque) are outside CBMC's reach; the engine-M obligations decide the manager's protocol around them with every container call uninterpreted: a slot is allocated only for an untracked key, not draining, after flows.len() < max_flows was observed; SetMaxFlows(n) stores exactly n; every counted datagram is followed by teardown_reason() on the updated flow and close_flow runs exactly when it says Some. Table/slab coherence over histories (close_flow key recomputation, handle_timeout sweep, generation comparison at expiry) is not decided.",
     "rule": "C19: one harness per flow method family.",
     "trusted_base": ["Instant values are a fixed origin (never compared by the flow); timeouts are whole seconds"],
     "assumptions": [],
-    "residual": "UdpManager: key -> flow -> backend stickiness, max_flows cap, shedding, drain, generation-token comparison at expiry, teardown exactly once.",
+    "residual": "UdpManager container coherence over histories: key -> flow -> backend stickiness across close/recreate, handle_timeout sweep, generation-token comparison at expiry, close_all; the shell in lib/src/udp.rs.",
     "obligations": [
         K("c19::c19_flow_datagram_step", "arbitrary established flow; one of on_client_datagram / on_backend_datagram / touch; unwind 4",
           "generation changes (wrapping +1) on every touch; exactly the right counter +1 saturating; phase unchanged", UF, min_covers=2),
@@ -296,6 +297,9 @@ REGISTRY["C19"] = {
         K("c19::c19_proxy_protocol_policy", "arbitrary flags, two successive upstream datagrams; unwind 4", "disabled => never; every-datagram => always; else exactly the first", UF),
         K("c19::c19_phase_forward_only", "all legal (from,to) phase pairs; unwind 4", "set_phase moves strictly forward and sozu's transition debug_assert holds", UF),
         K("c19::c19_flowkey_affinity", "all IPv4/IPv6 source pairs, both affinity modes; unwind 18", "equal keys <=> equal ip (and port when keyed on it); key keeps the client's ip; port zeroed otherwise", UF, min_covers=2),
+        M("c19_manager_config_exact", "whole UdpManager::on_config, event fully symbolic", "SetMaxFlows(n) / SetMaxRxDatagramSize(n) store exactly n, Drain stores true, each only for its own variant and on every path; table and slab untouched", UM, prop="c19m", which="config"),
+        M("c19_manager_admission_gate", "whole UdpManager::on_client_datagram; extractor, table lookup, slab len uninterpreted (arbitrary results)", "slab insert => key untracked, !draining, an unmutated flows.len() < max_flows observation; slab and table inserts paired; tracked key => forward_on_existing_flow; every datagram has exactly one of {admit, forward, drop}", UM, prop="c19m", which="admission"),
+        M("c19_manager_teardown_after_count", "forward_on_existing_flow, on_backend_resolved, on_backend_datagram; flow methods uninterpreted", "each counted datagram is followed by teardown_reason() taken after the count; close_flow <=> that answer is Some; a flow kept open is rescheduled", UM, prop="c19m", which="teardown"),
     ],
 }
 
@@ -387,16 +391,17 @@ REGISTRY["C08"] = {
 
 REGISTRY["C02"] = {
     "engine": "mir",
-    "technique": "symbolic execution of the MIR of mux::shared::end_stream_decision and mux::router::Router::connect into SMT (z3 + cvc5)",
+    "technique": "symbolic execution of the MIR of mux::shared::end_stream_decision, mux::router::Router::connect and Mux::timeout into SMT (z3 + cvc5)",
     "level_text": "z3 and cvc5 both decide that the real end_stream_decision is exactly the documented total table over (backend response started, response terminated, keep-alive backend, request consumed): forward the response only if one exists, abort (never 'terminated') when a keep-alive backend vanished mid-response, 502 iff no response and the request was consumed, retry only if nothing of the request was consumed, and no other status than 502; and that in Router::connect every backend connection attempt is preceded by the retry-budget test, consumes exactly one retry, happens only below CONN_RETRIES, and the u8 counter cannot overflow. Function level, all paths.",
-    "level_note": "The connect-error -> status mapping and timeout arms live in generic Mux<Front, L> methods that build default answers over pooled kawa buffers; liveness (no request unanswered beyond timeouts), exactly-once on the wire and isolation between streams need the running mux and are outside the claim.",
+    "level_note": "Mux::timeout is covered for which answer (408 / 503 / 504 / forceful termination / none) a stream gets as a function of its state and back.consumed. The connect-error -> status mapping lives in generic Mux<Front, L> methods that build default answers over pooled kawa buffers; liveness (no request unanswered beyond timeouts), exactly-once on the wire and isolation between streams need the running mux and are outside the claim.",
     "rule": "C02: decision table + retry budget.",
     "trusted_base": ["field-name tables parsed from lib/src/protocol/mux/stream.rs, kawa_h1/editor.rs and the kawa crate source"],
     "assumptions": ["Kawa::is_main_phase / is_terminated are arbitrary booleans (external crate)"],
-    "residual": "default-answer status mapping (404/401/421/429/503/504/408), timeouts, set_default_answer arming WRITABLE, RST/abort on the wire, multi-stream isolation.",
+    "residual": "default-answer status mapping of routing / connect errors (404/401/421/429/503), what set_default_answer writes, set_default_answer arming WRITABLE, RST/abort on the wire, multi-stream isolation.",
     "obligations": [
         M("c02_end_stream_decision_table", "whole function; the four inputs fully symbolic", "each of the 5 decisions is chosen exactly under its documented condition; questions are asked of stream.back; SendDefault carries 502 only", ["lib/src/protocol/mux/shared.rs"], prop="c02", which="decision"),
         M("c02_retry_budget", "whole function (290 blocks), loops unrolled 2x, callees uninterpreted", "counter advanced only below CONN_RETRIES, by exactly one, cannot overflow; backend_from_request / new_h1_client / new_h2_client / start_stream reachable only after the counter was advanced and only below the budget", ["lib/src/protocol/mux/router.rs"], prop="c02", which="retry"),
+        M("c02_timeout_answer_table", "whole Mux::timeout (179 blocks), first iteration of each per-stream loop, every callee uninterpreted", "statuses within {408,503,504}; 408 only for Idle, 503 for exactly the Link streams, 504 only and always when back.consumed is false (frontend arm: Linked; backend arm: not terminated / error), forceful termination only when it is true; unlink before answering; never two answers per stream; every stream of the timed-out backend is ended", ["lib/src/protocol/mux/mod.rs", "lib/src/protocol/mux/stream.rs"], prop="c02", which="timeout"),
     ],
 }
 
